@@ -332,7 +332,7 @@ def run_harness(hname, tier="quick", seed=0, only=None):
         c.setdefault("name", "cfg%d" % i)
     opts = {
         "timeout_ms": getattr(hmod, "TIMEOUT_MS", {}).get(tier, 5000),
-        "path_wall_s": getattr(hmod, "PATH_WALL_S", 120),
+        "path_wall_s": getattr(hmod, "PATH_WALL_S", 30),
         "validate_first": getattr(hmod, "VALIDATE_FIRST", 2),
         "validate_every": getattr(hmod, "VALIDATE_EVERY", 97),
         "nproc": NPROC,
